@@ -281,9 +281,12 @@ prop("C32",
 
 
 prop("C10",
-     units=["langframe", "lexerr", "fntables", "separators", "errprint", "fncall", "arrayprint", "boolentry"],
+     units=["langframe", "lexerr", "fntables", "separators", "errprint", "fncall", "arrayprint", "boolentry", "internalform"],
      level="proof",
-     claim="slices. Separators: at every site where the display printer (stringify) or the cut-and-paste printer (to_string_moved) chooses an argument / LAMBDA / array-element "
+     claim="slices. English storage / localized display: Model::user_formula_to_internal stores the ENGLISH printing of the tree parsed in the active language (or, failing that, in "
+           "English); Model::parse_internal_formula parses with the English locale and language and restores the parser's own; Model::internal_formula_to_display prints, in the "
+           "ACTIVE locale and language, the tree the English parser reads from the stored text (unit internalform, whole functions; parser and printers are stubs with "
+           "uninterpreted results, so only the right call establishes the postcondition). Separators: at every site where the display printer (stringify) or the cut-and-paste printer (to_string_moved) chooses an argument / LAMBDA / array-element "
            "/ array-row separator, the chosen character is lexed by the real single-character arms of Lexer::next_token, in the same locale, as exactly the token "
            "Parser::get_argument_separator_token / get_column_separator_token asks for — for every locale, whatever its decimal symbol; the three arms that print an error "
            "literal return the localized name of the language they are given (errprint). Translation tables: in every language the lexer reads an error kind exactly where that kind's localized name stands and consumes exactly its characters "
@@ -298,7 +301,7 @@ prop("C10",
 
 
 prop("C09",
-     units=["parens", "parensmoved", "parselevels", "separators", "errprint", "fncall", "arrayprint"],
+     units=["parens", "parensmoved", "parselevels", "separators", "errprint", "fncall", "arrayprint", "lexerr"],
      level="proof",
      claim="slice (the printer's side of the round trip, arm by arm, verbatim code): for every operator node — comparison, &, + -, * /, ^, unary minus, %, range ':', '@', '#' — the arm "
            "of stringify (display form in every language/locale, stored R1C1 form, xlsx form) and of to_string_moved (cut and paste) prints an operand in parentheses whenever "
